@@ -53,7 +53,7 @@ def zero_one(var, n, offs, ctx):
                 pats.append(d)
         for d in pats:
             ok, msg = validate_concrete(img, mk_setup(img, func, n, offs[0], d), exe)
-            if not ok:
+            if ok is False:
                 return {"status": ERROR, "detail": "translator validation failed (%s len=%d): %s" % (var, n, msg)}
             validated += 1
         for off in offs:
